@@ -461,6 +461,11 @@ class Evaluator:
             k = s["k"]
             if any(a["path"] == "cfg" and 'feature = "syn2"' in a["tokens"] and "not" not in a["tokens"] for a in (s.get("attrs") or [])):
                 continue  # the syn2 half of a cfg pair (C18 compares the halves); the default configuration is analysed
+            if k == "ItemStmt" and isinstance(s.get("item"), dict) and s["item"].get("k") == "Fn" and isinstance(s["item"].get("body"), dict):
+                # a nested fn is callable like a non-capturing closure
+                it_ = s["item"]
+                env[it_["name"]] = Clos([i_["pat"] for i_ in it_["sig"]["inputs"] if not i_.get("self")], it_["body"], {}, self)
+                continue
             if k == "ItemStmt" and isinstance(s.get("item"), dict) and s["item"].get("k") in ("Const", "Static") and isinstance(s["item"].get("expr"), dict):
                 try:
                     env[s["item"]["name"]] = self.eval(s["item"]["expr"], env)
@@ -1457,6 +1462,8 @@ class Evaluator:
                 return Tag(name, args, en)
             if en == "TokenStream" and name == "new":
                 return Toks([])
+            if en == "Vec" and name == "new" and not args:
+                return ListV([])
             if en == "TokenStream" and name == "from_iter":
                 a = args[0]
                 if isinstance(a, ListV):
